@@ -96,8 +96,8 @@ Print Assumptions C01_example_text.
 
 (** the numbers the generators use are numbers of the executable strconv model *)
 Example C01_example_numbers :
-  forallb numokC (map (fun k => Qmake (Z.of_nat k - 300) 64) (seq 0 700) ++
-                  map (fun k => Qmake (Z.of_nat k) 1024) (seq 0 300) ++
+  forallb numokC (map (fun k => Qmake (Z.of_nat k - 100) 64) (seq 0 300) ++
+                  map (fun k => Qmake (Z.of_nat k) 1024) (seq 0 100) ++
                   [Qmake 3602879701896397 36028797018963968; Qmake 86719 262144; inject_Z 123456789012345]) = true.
 Proof. vm_compute. reflexivity. Qed.
 Print Assumptions C01_example_numbers.
